@@ -299,12 +299,12 @@ class SoftTTLCache(Entity):
             self._coalesced_requests += 1
             # Wait for backing store latency (simulating waiting for the refresh)
             yield self._backing_store.read_latency
-            # Check if the refresh completed; never serve an entry past its hard TTL
+            # Serve what the refresh stored, but never an entry past its hard TTL;
+            # otherwise fall through to a blocking fetch of our own.
             if key in self._cache:
                 entry = self._cache[key]
                 if entry.is_valid(self.now, self._hard_ttl):
                     return entry.value
-            return None
 
         # Fetch from backing store (blocking)
         value = yield from self._backing_store.get(key)
